@@ -84,7 +84,7 @@ package limit
 //@   ensures implies(err == nil, int64(scriptResp.(int64)) == 0 || int64(scriptResp.(int64)) == 1 || int64(scriptResp.(int64)) == 2)
 //@   ensures implies(err != nil, code == Unknown)
 //@   ensures scriptCalls == old(scriptCalls) + 1
-//@   modifies scriptResp, scriptErr, scriptCalls
+//@   modifies scriptResp, scriptErr, scriptCalls, runCmd
 
 //@ func (lim *TokenLimiter) reserveN
 //@   property C03
@@ -133,3 +133,14 @@ package limit
 //@   loop 0: invariant limiter != nil && limiter.period == period && limiter.quota == quota && limiter.limitStore == limitStore && limiter.keyPrefix == keyPrefix
 //@   ensures result != nil && result.period == period && result.quota == quota && result.limitStore == limitStore && result.keyPrefix == keyPrefix
 //@   allocates
+
+// both entry points hand the requested number of tokens to the bucket as it is (no clamping: a request for more than the
+// bucket can ever hold must be refused without side effect, not granted in part)
+//@ func (lim *TokenLimiter) AllowNCtx
+//@   property C03
+//@   ghost at entry: n0 = n
+//@   call reserveN#0: assert arg_n == n0 && arg_now == now && arg_ctx == ctx && arg_recv == lim
+//@ func (lim *TokenLimiter) AllowN
+//@   property C03
+//@   ghost at entry: n0 = n
+//@   call reserveN#0: assert arg_n == n0 && arg_now == now && arg_recv == lim
